@@ -1,7 +1,9 @@
-(* Model/Doc.v instantiated with the regenerated tables: which template the parser's element gets for a tag, what the schema allows below
-   it.  The lemmas take the row check of C03 (forallb cm_row_ok cm_rows = true) as a hypothesis; the Properties files supply it. *)
-From MX Require Import Spec.Particle Spec.Deriv Spec.Equiv Gen.Names Gen.Schema Gen.Templates Gen.Lib Model.Tables Model.AbsSeq Model.AbsSeqC02 Model.Classes Model.SeqIds Model.Doc.
-From Coq Require Import List String Bool.
+(* Model/Doc.v instantiated with the regenerated tables: which machine the parser's element gets for a tag (the sequence machine or the bag
+   machine of the element's type, by its library template), what the SCHEMA allows below it.  The lemmas take the row check of C03 as a
+   hypothesis; the Properties files supply it. *)
+From MX Require Import Spec.Particle Spec.Deriv Spec.Equiv Gen.Names Gen.Schema Gen.Templates Gen.Lib Model.Tables Model.AbsSeq Model.AbsSeqC02 Model.Classes
+  Model.SeqIds Model.AbsBag Model.Doc.
+From Coq Require Import List String Bool Permutation.
 Import ListNotations.
 Open Scope string_scope.
 Definition strip_anon (s:string) : string := if String.prefix "<anon>" s then String.substring 6 (String.length s - 6) s else s.
@@ -9,40 +11,64 @@ Definition elem_row (tag:positive) : option (string * option particle * option p
   match find (fun p => Pos.eqb (fst p) tag) sym_table with None => None | Some (_, n) =>
   match find (fun p => String.eqb (fst p) n) xsd_elements with None => None | Some (_, ty) =>
   match find (fun r => String.eqb (fst (fst r)) (strip_anon ty)) cm_rows with Some r => Some r | None => Some (ty, None, None) end end end.
-(* the template the parser's element gets: the library template of the element's type when it is of the sequence class; no children for
-   elements of simple / empty types *)
-Definition elem_tpl (tag:positive) : option stree :=
+(* the machine the parser's element gets: by the library template of the element's type (sequence class, bag class); no children for
+   elements of simple / empty types; nothing for the other types *)
+Definition elem_tpl (tag:positive) : option ntpl :=
   match elem_row tag with
-  | Some (_, Some x, Some l) => if Classes.is_seq l then stree_of l else None
-  | Some (_, None, None) => Some (SNode false [])
+  | Some (_, Some x, Some l) =>
+      if Classes.is_seq l then option_map TSeq (stree_of l)
+      else match bag_of 10 l with Some (a, mn) => if Nat.leb mn 1 then Some (TBag a mn) else None | None => None end
+  | Some (_, None, None) => Some (TSeq (SNode false []))
   | _ => None end.
+Definition elem_start (tag:positive) : option nstate := option_map nstart (elem_tpl tag).
 (* what the SCHEMA allows below the element *)
 Definition elem_schema_re (tag:positive) : re := match elem_row tag with Some (_, Some x, _) => re_of x | _ => Eps end.
-Fixpoint schema_valid (d:xdoc) : Prop :=
-  match d with XNode tag kids =>
-    (elem_tpl tag <> None /\ Lang (elem_schema_re tag) (map tag_of kids))
-    /\ (fix all (l:list xdoc) : Prop := match l with [] => True | k :: r => schema_valid k /\ all r end) kids end.
+Definition elem_lang (tag:positive) (w:list positive) : Prop := Lang (elem_schema_re tag) w.
+Definition elem_okst (tag:positive) (s:nstate) : Prop := match elem_tpl tag with Some t => nst_ok t s | None => False end.
+Definition schema_valid := valid nstate elem_start elem_lang.
+Definition doc_parse := parse nstate elem_start nfeed.
+Definition doc_emit := emit nstate nfin nord.
+Definition doc_elt_ok := elt_ok nstate elem_start nord elem_okst.
+
 Section WithRows.
 (* stated as a universally quantified fact, not as an equation between closed terms: tactics that inspect hypotheses must not start evaluating it *)
 Hypothesis Hok : forall r, In r cm_rows -> cm_row_ok r = true.
-Lemma elem_tpl_sound tag t : elem_tpl tag = Some t -> wf_t t = true /\ NoDup (alpha_t t) /\ forall w, Lang (elem_schema_re tag) w -> Lang (re_of_s t) w.
+Lemma elem_tpl_sound tag t : elem_tpl tag = Some t -> ntpl_ok t /\ forall w, elem_lang tag w <-> nlang t w.
 Proof.
-  unfold elem_tpl, elem_schema_re, elem_row.
+  unfold elem_tpl, elem_lang, elem_schema_re, elem_row.
   destruct (find (fun p => Pos.eqb (fst p) tag) sym_table) as [[? n]|]; [|discriminate].
   destruct (find (fun p => String.eqb (fst p) n) xsd_elements) as [[? ty]|]; [|discriminate].
   destruct (find (fun r => String.eqb (fst (fst r)) (strip_anon ty)) cm_rows) as [[[key xp] lt]|] eqn:F.
   - apply find_some in F as [I _]. destruct xp as [x|], lt as [l|]; try discriminate.
-    + destruct (Classes.is_seq l) eqn:S; [|discriminate]. intros St. destruct (is_seq_parts l S) as (t' & St' & W & ND). rewrite St in St'. injection St' as <-.
-      split; [exact W|split; [exact ND|]]. intros w L. apply (stree_of_lang l t St). apply (proj1 (cm_row_sound key x l (Hok _ I))). exact L.
-    + intros E. injection E as <-. split; [reflexivity|split; [constructor|intros w L; exact L]].
-  - intros E. injection E as <-. split; [reflexivity|split; [constructor|intros w L; exact L]].
+    + pose proof (cm_row_sound key x l (Hok _ I)) as [Q _].
+      destruct (Classes.is_seq l) eqn:S.
+      * destruct (stree_of l) as [t'|] eqn:St; [|discriminate]. intros E. injection E as <-.
+        destruct (is_seq_parts l S) as (t'' & St' & W & ND). rewrite St in St'. injection St' as <-.
+        split; [split; [exact W|exact ND]|]. intros w. simpl. rewrite Q. apply (stree_of_lang l t' St).
+      * destruct (bag_of 10 l) as [[a mn]|] eqn:B; [|discriminate]. destruct (Nat.leb mn 1) eqn:M; [|discriminate]. intros E. injection E as <-.
+        split; [apply Nat.leb_le; exact M|]. intros w. simpl. rewrite Q. apply (bag_of_lang 10 l a mn B).
+    + intros E. injection E as <-. split; [split; [reflexivity|constructor]|]. intros w. simpl. tauto.
+  - intros E. injection E as <-. split; [split; [reflexivity|constructor]|]. intros w. simpl. tauto.
 Qed.
-Lemma schema_valid_valid : forall d, schema_valid d -> valid elem_tpl d.
+Lemma elem_good tag s0 w : elem_start tag = Some s0 -> elem_lang tag w -> exists s, nfeed w s0 = Some s /\ nfin s = true /\ nord s = tagged 0 w.
 Proof.
-  induction d using xdoc_ind2. intros [[T L] VK]. simpl. split.
-  - destruct (elem_tpl t) as [st|] eqn:E; [|contradiction]. destruct (elem_tpl_sound t st E) as (W & ND & Sound). exists st. split; [reflexivity|split; [exact W|split; [exact ND|apply Sound; exact L]]].
-  - clear -H VK. induction H as [|x r Hx Hr IH]; simpl; [exact I|]. destruct VK as [Vx Vr]. split; [apply Hx; exact Vx|apply IH; exact Vr].
+  unfold elem_start. destruct (elem_tpl tag) as [t|] eqn:E; [|discriminate]. intros S0 Lw. injection S0 as <-.
+  destruct (elem_tpl_sound tag t E) as [K Q]. apply ngood; [exact K|apply Q; exact Lw].
 Qed.
+Lemma elem_perm tag s0 w s : elem_start tag = Some s0 -> nfeed w s0 = Some s -> Permutation (nord s) (tagged 0 w).
+Proof. unfold elem_start. destruct (elem_tpl tag) as [t|]; [|discriminate]. intros S0 F. injection S0 as <-. eapply nperm; eauto. Qed.
+Lemma elem_sound tag s : elem_okst tag s -> nfin s = true -> elem_lang tag (names (nord s)).
+Proof.
+  unfold elem_okst. destruct (elem_tpl tag) as [t|] eqn:E; [|contradiction]. intros O R. destruct (elem_tpl_sound tag t E) as [_ Q]. apply Q. apply nsound; auto.
+Qed.
+(* the three document theorems for today's tables *)
+Theorem tables_doc_roundtrip : forall d, schema_valid d -> exists e, doc_parse d = Some e /\ doc_emit e = Some d.
+Proof. exact (doc_roundtrip nstate elem_start nfeed nfin nord elem_lang elem_good). Qed.
+Theorem tables_no_silent_loss : forall d e d', doc_parse d = Some e -> doc_emit e = Some d' -> same_content d d'.
+Proof. exact (parse_loses_nothing nstate elem_start nfeed nfin nord elem_perm). Qed.
+Theorem tables_emitted_roundtrips : forall e d, doc_elt_ok e -> doc_emit e = Some d -> exists e', doc_parse d = Some e' /\ doc_emit e' = Some d.
+Proof. exact (emitted_roundtrips nstate elem_start nfeed nfin nord elem_lang elem_okst elem_good elem_sound). Qed.
+
 (* a boolean test for the premise *)
 Fixpoint schema_validb (d:xdoc) : bool :=
   match d with XNode tag kids =>
@@ -59,8 +85,10 @@ Proof.
 Qed.
 Lemma schema_validb_sound : forall d, schema_validb d = true -> schema_valid d.
 Proof.
-  induction d using xdoc_ind2. simpl. intros B. apply andb_true_iff in B as [B K]. apply andb_true_iff in B as [T A]. split.
-  - split; [destruct (elem_tpl t); [discriminate|discriminate]|apply accepts_iff; [apply elem_schema_re_wf|exact A]].
+  induction d using xdoc_ind2. unfold schema_valid. simpl. intros B. apply andb_true_iff in B as [B K]. apply andb_true_iff in B as [T A]. split.
+  - split.
+    + unfold elem_start. destruct (elem_tpl t); [discriminate|discriminate].
+    + unfold elem_lang. apply accepts_iff; [apply elem_schema_re_wf|exact A].
   - clear -H K. induction H as [|x r Hx Hr IH]; simpl in *; [exact I|]. apply andb_true_iff in K as [K1 K2]. split; [apply Hx; exact K1|apply IH; exact K2].
 Qed.
 End WithRows.
